@@ -246,3 +246,54 @@ def share_nested_typed_defaults(in_dict: bool, empty_inner: bool, second_first: 
     reset_value(mine, "dl" if in_dict else "ll")
     hold("isolated", plain(mine) == {"ll": [[], [1]], "dl": {"e": [], "n": [1]}}, "reset does not restore the declared default")
     return True
+
+
+# --------------------------------------------------------------------------- loads from files and field options
+@obligation(prop="C13", sites=("options",), stubs=("FakeFS", "MemFormat"), budget={"quick": 120, "thorough": 240},
+            encodes=["cincoconfig.core.Config.load", "cincoconfig.core.Config._process_includes",
+                     "cincoconfig.fields.include_field.IncludeField.include"],
+            what="two configurations of one schema with include fields (root and nested, with or without a declared "
+                 "start directory) load FILES from two different directories, one after the other: every option of "
+                 "every field of the schema is the same object / value afterwards (vars() of each field, every depth), "
+                 "and the second configuration gets the values of ITS OWN directory's included file")
+def file_loads_leave_field_options_alone(with_startdir: bool, nested: bool, second_too: bool) -> bool:
+    """
+    post: _
+    """
+    from cincoconfig import IncludeField
+    from vf.hlib.stubs import FakeFS, MemStore
+    mem = MemStore()
+    fs = FakeFS(dirs=["/a", "/b", "/inc"])
+    schema = Schema()
+    owner = schema.sec if nested else schema
+    owner.include = IncludeField(startdir="/inc" if with_startdir else None)
+    owner.x = IntField(default=0)
+    schema.other = IntField(default=1)
+
+    def options():
+        out = []
+        for path, _, field in get_all_fields(schema):
+            out.append((path, sorted((k, (id(v) if not isinstance(v, (str, int, bool, type(None))) else v))
+                                     for k, v in vars(field).items() if k != "_fields")))
+        return out
+    before = options()
+    # the files: main documents in /a and /b name a RELATIVE include; it exists next to each of them (and in /inc)
+    for d, val in (("/a", 10), ("/b", 20), ("/inc", 30)):
+        fs.files[d + "/part.mem"] = mem.put({"x": val})
+    inc_leaf = {"include": "/a/part.mem" if not with_startdir else "part.mem"}
+    for d in ("/a", "/b"):
+        leaf = {"include": (d + "/part.mem") if not with_startdir else "part.mem"}
+        fs.files[d + "/main.mem"] = mem.put({"sec": leaf} if nested else dict(leaf))
+    with fs.patched(), mem.registered():
+        c1, c2 = schema(), schema()
+        c1.load("/a/main.mem", format="mem")
+        if second_too:
+            c2.load("/b/main.mem", format="mem")
+    hold("options", options() == before, lambda: "a file load changed field options of the schema: %r -> %r" % (before, options()))
+    want1 = 30 if with_startdir else 10
+    hold("options", (c1.sec if nested else c1).x == want1, "first configuration did not get its included value")
+    if second_too:
+        want2 = 30 if with_startdir else 20
+        hold("options", (c2.sec if nested else c2).x == want2,
+             lambda: "the second configuration got %r from its include, expected %r" % ((c2.sec if nested else c2).x, want2))
+    return True
